@@ -70,7 +70,7 @@ type item struct {
 }
 
 func genPoolGeom(t *rapid.T) *model.G {
-	switch rapid.IntRange(0, 5).Draw(t, "shape") {
+	switch rapid.IntRange(0, 6).Draw(t, "shape") {
 	case 0: // many points: exercises the hull's >50-point path (collinear or scattered)
 		n := rapid.IntRange(51, 90).Draw(t, "n")
 		collinear := rapid.Bool().Draw(t, "collinear")
@@ -99,6 +99,29 @@ func genPoolGeom(t *rapid.T) *model.G {
 		}
 		if np == 1 && rapid.Bool().Draw(t, "asPolygon") {
 			g.Kind, g.C2, g.C3 = model.Polygon, g.C3[0], nil
+		}
+		return g
+	case 3: // a polygon with holes whose rings close in x,y(,z) only: the measure M of the closing
+		// vertex differs from the first one (a measure along the ring naturally does). Ring
+		// functions receive sub-slices of the polygon's array: anything written past the
+		// ring's end lands in the next ring.
+		l := rapid.SampledFrom([]geom.Layout{geom.XYM, geom.XYZM}).Draw(t, "layout")
+		g := &model.G{Kind: model.Polygon, Layout: int(l)}
+		nr := rapid.IntRange(2, 3).Draw(t, "nr")
+		for r := 0; r < nr; r++ {
+			cx, cy := float64(rapid.IntRange(-9, 9).Draw(t, "cx")), float64(rapid.IntRange(-9, 9).Draw(t, "cy"))
+			w, h := float64(rapid.IntRange(1, 6).Draw(t, "w")), float64(rapid.IntRange(1, 6).Draw(t, "h"))
+			xs := [][2]float64{{cx, cy}, {cx + w, cy}, {cx + w, cy + h}, {cx, cy + h}, {cx, cy}}
+			var ring [][]model.F
+			for i, q := range xs {
+				c := []float64{q[0], q[1]}
+				if l == geom.XYZM {
+					c = append(c, 7)
+				}
+				c = append(c, float64(10*r+i)) // M: 0,1,2,3,4 - the closing vertex has its own
+				ring = append(ring, model.Bits(c))
+			}
+			g.C2 = append(g.C2, ring)
 		}
 		return g
 	case 1: // a flight track for the IGC encoder
